@@ -70,18 +70,18 @@ Qed.
 (* the model's observation IS the expected one, on every case *)
 Theorem model_obs_is_expected : forall c m,
   wf_results (c_results c) = true ->
-  law_ok c = true -> model_obs c = Some m -> pobs_of m = expected c.
+  no_both nat (c_out c) = true -> law_ok c = true -> model_obs c = Some m -> pobs_of m = expected c.
 Proof.
-  intros c o Hwf Hlaw Hm.
+  intros c o Hwf Hnb Hlaw Hm.
   pose proof (model_obs_accepted c o Hm) as Hacc.
   unfold model_obs in Hm.
   destruct (scenario_ok (c_body_verb c) (c_out c)) eqn:Hsc.
   2:{ (* impossible scenario: the model returns nothing *)
-      exfalso. destruct (c_out c) as [[] x|r]; try discriminate Hsc.
+      exfalso. destruct (c_out c) as [[] x|r|r x]; try discriminate Hsc.
       destruct (c_body_verb c); [discriminate Hsc|].
       rewrite (sg_impossible_scenario val nat (fun _ _ => c_dec c) (c_results c) x Hwf Hacc) in Hm.
       discriminate Hm. }
-  rewrite (sg_refines_spec val nat (fun _ _ => c_dec c) (c_body_verb c) (c_results c) (c_out c) Hwf Hacc Hsc) in Hm.
+  rewrite (sg_refines_spec val nat (fun _ _ => c_dec c) (c_body_verb c) (c_results c) (c_out c) Hwf Hacc Hsc Hnb) in Hm.
   clear Hsc.
   unfold expected.
   rewrite declared_arity_values.
@@ -90,7 +90,7 @@ Proof.
   clear Hwf. destruct (values rs0) as [|a [|b [|d [|e rest]]]]; simpl in Hacc; try contradiction.
   - (* (response, error) *)
     unfold spec_returns, spec_events in Hm. simpl in Hm.
-    destruct out as [st x|r]; simpl in Hm.
+    destruct out as [st x|r|r x]; [| |discriminate Hnb]; simpl in Hm.
     + inversion Hm; subst; reflexivity.
     + unfold status_error, class_of in Hm.
       destruct (Z.leb_spec 200 (r_status r)), (Z.ltb_spec (r_status r) 300),
@@ -103,7 +103,7 @@ Proof.
     destruct Hd as (ty & Hd).
     unfold spec_returns, spec_events in Hm. rewrite Hd in Hm.
     set (p := match f_type a with TStar _ => true | _ => false end) in *.
-    destruct out as [st x|r]; simpl in Hm.
+    destruct out as [st x|r|r x]; [| |discriminate Hnb]; simpl in Hm.
     + inversion Hm; subst; reflexivity.
     + unfold status_error, class_of in Hm.
       destruct (Z.leb_spec 200 (r_status r)), (Z.ltb_spec (r_status r) 300),
@@ -123,12 +123,12 @@ Qed.
 
 Theorem model_satisfies_Pb : forall c o,
   wf_results (c_results c) = true ->
-  law_ok c = true -> model_obs c = Some o -> Pb (with_obs c o) = true.
+  no_both nat (c_out c) = true -> law_ok c = true -> model_obs c = Some o -> Pb (with_obs c o) = true.
 Proof.
-  intros c o Hwf Hlaw Hm. unfold Pb.
+  intros c o Hwf Hnb Hlaw Hm. unfold Pb.
   change (c_obs (with_obs c o)) with o.
   change (expected (with_obs c o)) with (expected c).
-  rewrite (model_obs_is_expected c o Hwf Hlaw Hm). apply pobs_eqb_refl.
+  rewrite (model_obs_is_expected c o Hwf Hnb Hlaw Hm). apply pobs_eqb_refl.
 Qed.
 
 (* the boolean property holds of an observation exactly when it agrees with the
@@ -137,11 +137,11 @@ Qed.
    events (read / Close), which are not part of the property text *)
 Theorem Pb_iff_agrees_with_model : forall c m,
   wf_results (c_results c) = true ->
-  law_ok c = true -> model_obs c = Some m ->
+  no_both nat (c_out c) = true -> law_ok c = true -> model_obs c = Some m ->
   (Pb c = true <-> pobs_of (c_obs c) = pobs_of m).
 Proof.
-  intros c m Hwf Hlaw Hm. unfold Pb.
-  rewrite (model_obs_is_expected c m Hwf Hlaw Hm). split.
+  intros c m Hwf Hnb Hlaw Hm. unfold Pb.
+  rewrite (model_obs_is_expected c m Hwf Hnb Hlaw Hm). split.
   - apply pobs_eqb_eq.
   - intros ->. apply pobs_eqb_refl.
 Qed.
